@@ -934,7 +934,12 @@ class StateScenario(Scenario):
         every further load into it ends in that failure, whatever the tree holds: no path claim can be made."""
         if self.prop != "C15":
             return False
-        errs, e = self._call(lambda: target.validate(collect_errors=True))
+        fault, st.B.fault = st.B.fault, None          # an observation: it must not consume the operation's injected fault
+        n = st.B.vcount
+        try:
+            errs, e = self._call(lambda: target.validate(collect_errors=True))
+        finally:
+            st.B.fault, st.B.vcount = fault, n
         return bool(errs) or e is not None
 
     def after_tree_rejection(self, st, rec, err, snode, tree, prefix, route, fresh_top=False, pre_bad=False):
